@@ -67,6 +67,12 @@ CLAIMED = {
         "text": "C13_push/pop/insert/remove/swap_remove/truncate/cap_ge_len/reserve_post/drain_filter_partition are proved for all arguments (out-of-range included) of the Vec model; every generated program (26 operation kinds, boundary indices, all range forms, scripted callbacks, neighbours and canaries in the same arena) is run on bumpalo's Vec, on std's Vec (the oracle the property names) and through the extracted model, debug and release. Partial: drain/splice/dedup/resize/extend/split_off/clone/into_iter/conversions and zero-sized element types are decided by the differential only.",
         "design_ref": "DESIGN.md §6 C13",
     },
+    "C14": {
+        "engine": "string",
+        "technique": "Coq proof (well-formed UTF-8 closed under concatenation and splitting at char boundaries; lossy chunk iterator invariant; generated obligation on the width table) + differential execution against std::string::String and the extracted model",
+        "text": "C14_split_at_boundary / C14_concat / C14_truncate / C14_insert_str / C14_split_off / C14_remove / C14_replace_range / C14_from_utf8 / C14_lossy_chunk / C14_lossy_valid / C14_lossy_identity. Every generated program (18 operation kinds at every byte index, all range forms, 1-4 byte characters, panicking retain predicates) runs on bumpalo's String and std's String with a UTF-8 validity check after every operation; the decoders are compared with std on all byte strings up to length 2 (and through the model), a sweep of length 3, structured ill-formed input, and all single UTF-16 units plus structured pairs. The lead-byte width table is read back from the built crate on every run. Partial: equality with std's repaired text for ill-formed input and the non-index operations are decided by the differential only.",
+        "design_ref": "DESIGN.md §6 C14",
+    },
     "C15": {
         "engine": "vec",
         "technique": "Coq proof (drop logs of the Vec model; permutation-based conservation for drain_filter) + drop-ledger differential against std",
@@ -141,6 +147,9 @@ def main():
             "add_only": True,
         },
         "engines": [
+            {"name": "string", "path": "coq/Utf8*.v + coq/LossyTable*.v + harness/src/bin/string_driver.rs + ocaml/string_check.ml",
+             "serves_properties": ["C14"],
+             "kind_free_text": "Coq theory of well-formed UTF-8, char boundaries and the lossy decoder; differential execution against std::string::String, core::str::from_utf8, from_utf8_lossy, from_utf16"},
             {"name": "vec", "path": "coq/Vec*.v + harness/src/bin/vec_driver.rs + ocaml/vec_check.ml",
              "serves_properties": ["C13", "C15", "C16", "C19"],
              "kind_free_text": "Coq model of Vec/RawVec with refinement theorems; differential execution against std::vec::Vec and the extracted model; drop ledger"},
